@@ -425,9 +425,7 @@ def rule_N3_flag(ctx):
         ctx.anchor(len(ifs) >= 1, f'Survey.{name} getter: scalar/array branch')
         for i in ifs:
             reads_attr = any(
-                isinstance(x, ast.Attribute) and x.attr == name and
-                ast.unparse(x.value) in ('self.data', 'self._data')
-                or isinstance(x, ast.Subscript) and
+                isinstance(x, ast.Subscript) and
                 ast.unparse(x.value).endswith('.attrs') and
                 isinstance(x.slice, ast.Constant) and x.slice.value == name
                 for x in ast.walk(i.test))
@@ -466,6 +464,35 @@ def rule_N3_scalar(ctx):
               'of a survey with a single frequency / source is rejected',
               ctx.where(sm, br[0][0]), sample={'conversion': C,
                                                'cast': bool(cast)})
+
+
+def rule_N3_attrs(ctx):
+    """The noise settings live in the ATTRIBUTES of the Dataset.  The
+    shorthand `dataset.name` resolves data variables before attributes
+    (xarray), so a data set called `noise_floor` / `relative_error` would be
+    read instead of the setting: every read goes through `.attrs[...]`."""
+    sm = ctx.repo.mod(SURV)
+    n = 0
+    for node in ast.walk(sm.cls('Survey')):
+        if isinstance(node, ast.Attribute) and node.attr in (
+                'noise_floor', 'relative_error') and isinstance(
+                    node.ctx, ast.Load) and ast.unparse(node.value) in (
+                        'self.data', 'self._data'):
+            n += 1
+            ctx.check('C13.N3.flag', f'{au.qualname(node)} `{ast.unparse(node)}`',
+                      False, 'the noise setting is read with the attribute '
+                      'shorthand of the Dataset, which prefers a data '
+                      f'variable named `{node.attr}` over the attribute: '
+                      'such a data set silently replaces the noise model and '
+                      'explicit assignments are ignored',
+                      ctx.where(sm, node))
+    reads = [x for x in ast.walk(sm.cls('Survey')) if isinstance(
+        x, ast.Subscript) and ast.unparse(x.value).endswith('.attrs') and
+        isinstance(x.slice, ast.Constant) and x.slice.value in (
+            'noise_floor', 'relative_error') and isinstance(x.ctx, ast.Load)]
+    ctx.ok('C13.N3.flag', f'Survey: noise settings read through .attrs '
+           f'({len(reads)} reads, {n} shorthand reads)',
+           sample={'attrs_reads': len(reads), 'shorthand_reads': n})
 
 
 def rule_N4(ctx):
@@ -552,6 +579,7 @@ def run(ctx):
     rule_N3(ctx)
     rule_N3_flag(ctx)
     rule_N3_scalar(ctx)
+    rule_N3_attrs(ctx)
     rule_N4(ctx)
     # cached weights (1/std^2) must not survive a replacement of the
     # observed data they were computed from (shared rule with C12.OW2)
